@@ -23,7 +23,8 @@ theorem dhtIterate_inv_total {σ : Type} (key : Go.Bytes) (n : Int)
   rw [hg]
   refine dhtIterate_inv key n g P R ?_ nodes hP st0 h0
   intro seen st node hR hPn hnot
-  exact hstep seen st node (g st node) (by rw [hg]; rfl) hR hPn hnot
+  have := hstep seen st node (g st node) (by rw [hg]; rfl) hR hPn hnot
+  exact ⟨this.1, fun x hx _ => this.2 x hx⟩
 
 /-- the same rule, from a run that ended normally -/
 theorem dhtIterate_ok_inv {σ : Type} {key : Go.Bytes} {n : Int}
